@@ -163,7 +163,7 @@ def exLine : MeasLine :=
 example : exLine.SepFree := by simp [MeasLine.SepFree, exLine, sepFree]
 
 /-- excluded class (b1): a tab inside the criterion (RebenchLog's `[^:]{1,30}`
-admits one) shifts the columns; the line reloads with another criterion -/
+allows one) shifts the columns; the line reloads with another criterion -/
 theorem c07_line_roundtrip_tab_fails :
     (parseMeas (renderMeas { exLine with crit := "me\tm".toList })).map (·.crit) = some "me".toList := by
   decide +kernel
